@@ -369,7 +369,17 @@ class Machine:
 
     def _gen_fault(self, rng):
         f = rng.choice(["global_rng", "global_rng", "num_threads", "use_core", "errstate",
-                        "rejected_set", "callback_raise", "rejected_seed"])
+                        "rejected_set", "callback_raise", "rejected_seed", "errstate_raise",
+                        "foreign_hankel"])
+        if f == "errstate_raise":
+            # placed right after an in-place model change, so that the generator has work in
+            # flight (model copy, resampling) when the call trips
+            return {"fault": f, "kind": rng.choice(["divide", "invalid"]),
+                    "idx": rng.sample(range(self.npool), min(3, self.npool)),
+                    "set_first": {"param": "len_scale", "value": rng.choice(cm.LEN_GRID)}
+                    if rng.random() < 0.7 else None}
+        if f == "foreign_hankel":
+            return {"fault": f, "kw": rng.choice([{"N": 300}, {"N": 200, "h": 0.003}])}
         if f == "rejected_seed" and self.spec["gen"]["kind"] == "Fourier" and rng.random() < 0.5:
             bad = [rng.choice([4, 6, 8, 10]) for _ in range(self.dim)]
             bad[rng.randrange(self.dim)] = rng.choice([3, 5, 7])
@@ -617,6 +627,10 @@ class Machine:
             for s in self.sides():
                 self._set_param(s.srf.model, p, op["repair"])
             self._sync_spec_model()
+        elif f == "errstate_raise":
+            self._apply_errstate_raise(op)
+        elif f == "foreign_hankel":
+            self._apply_foreign_hankel(op)
         elif f == "rejected_seed":
             self._apply_rejected_seed(op)
         elif f == "rejected_mode_no":
@@ -673,6 +687,52 @@ class Machine:
             raise Violation("C11.generator_direct", maxdiff=maxdiff(out[0], exp),
                             gen=self.spec["gen"]["kind"])
 
+    def _apply_errstate_raise(self, op):
+        """Ambient fault: the caller runs one generation under np.errstate(<kind>='raise').
+        If the library trips over it the call dies half-way (FloatingPointError); the history
+        continues under normal error handling and every later observation is checked in full."""
+        idx = [i for i in op["idx"] if 0 <= i < self.npool]
+        if not idx:
+            raise Inapplicable("no points")
+        gen_op = {"op": "gen", "layout": "unstructured", "idx": idx, "via": "call",
+                  "seed": {"mode": "keep"}, "store": True, "post": True}
+        if op.get("set_first"):
+            try:
+                self._apply_set({"op": "set", "param": op["set_first"]["param"],
+                                 "value": op["set_first"]["value"]})
+            except Inapplicable:
+                pass
+        # only the library call runs under the trap; the reference is computed normally
+        self.errctx = {op["kind"]: "raise"}
+        self.ctx.fired("errstate_raise")
+        try:
+            self._apply_gen(gen_op)
+        except FloatingPointError:
+            self.ctx.probe("call_failed_midway")
+            self.ctx.probe("errstate_raise.tripped")
+            self.last = ("u", idx)
+            self.twin = None  # the twin was not called: from here on single execution
+        finally:
+            self.errctx = None
+
+    def _apply_foreign_hankel(self, op):
+        """Ambient fault: somewhere else in the process another model is created with custom
+        Hankel-transform settings.  A fresh object built from the same spec must give the same
+        values before and after."""
+        post = True
+        before = np.array(self._ref_pool(post))
+        gs.Spherical(dim=2, hankel_kw=dict(op["kw"]))
+        other = gs.Gaussian(dim=1)
+        other.hankel_kw = dict(op["kw"])
+        self.ctx.fired("foreign_hankel")
+        fresh = build_srf(self.spec)
+        after = np.array(fresh(self.pool.copy(), post_process=post, store=False),
+                         dtype=np.double)
+        self.ctx.observations += 1
+        if self.spec["model"]["nugget"] == 0 and not close(after, before, rtol=self.tol):
+            raise Violation("C11.ambient_independent", fault="foreign_hankel",
+                            maxdiff=maxdiff(after, before), model=self.spec["model"]["cls"])
+
     def _apply_rejected_seed(self, op):
         idx = [i for i in op["idx"] if 0 <= i < self.npool]
         if not idx:
@@ -715,14 +775,17 @@ class Machine:
         if "value" in seed_arg:
             kw["seed"] = self._seed_obj(side, seed_arg["value"], seed_arg["obj"])
         via = op.get("via", "call")
+        errctx = getattr(self, "errctx", None) or {}
         if pos is None:
-            return srf(**kw)
+            with np.errstate(**errctx):
+                return srf(**kw)
         try:
-            if via == "structured":
-                return srf.structured(pos, **kw)
-            if via == "unstructured":
-                return srf.unstructured(pos, **kw)
-            return srf(pos, mesh_type=mesh_type, **kw)
+            with np.errstate(**errctx):
+                if via == "structured":
+                    return srf.structured(pos, **kw)
+                if via == "unstructured":
+                    return srf.unstructured(pos, **kw)
+                return srf(pos, mesh_type=mesh_type, **kw)
         finally:
             # the caller reuses its position arrays after the call: the field object must keep
             # its own copy (layout "reuse" later evaluates at the ORIGINAL points)
